@@ -174,7 +174,7 @@ def gen_arity():
 
 def gen_array():
     out = []
-    modes = {0: 'lit', 1: 'cnew', 2: 'craw', 3: 'litnull', 4: 'cnull', 5: 'litnum', 6: 'cerr', 7: 'cbool'}
+    modes = {0: 'lit', 1: 'cnew', 2: 'craw', 3: 'litnull', 4: 'cnull', 5: 'litnum', 6: 'cerr', 7: 'cbool', 8: 'czero'}
     def q(op, mode, n, epat, ppat, tier, note):
         is_all = 'true' if op == 'all' else 'false'
         h = 'k_c14_%s_%s_%d_e%d_p%d' % (op, modes[mode], n, epat, ppat)
@@ -199,6 +199,7 @@ def gen_array():
         q(op, 5, 0, 0, 0, 'quick', 'literal number (not a collection)')
         q(op, 6, 0, 0, 0, 'off', 'collection evaluation fails')
         q(op, 7, 0, 0, 0, 'thorough', 'computed boolean (not a collection)')
+        q(op, 8, 0, 0, 0, 'quick', 'computed number 0 (falsy, but not a collection: an error, not empty)')
         q(op, 0, 2, 1, 3, 'thorough', 'literal array, second element expression fails')
         q(op, 1, 2, 3, 1, 'thorough', 'computed array, second predicate call fails')
         q(op, 0, 3, 7, 7, 'thorough', 'literal array of three')
